@@ -116,7 +116,7 @@ template <class D> struct Hist {
   std::vector<Slot> S;
   std::vector<var_t> vars; // all scalars
   std::vector<cst_t> probes;
-  MemberOpts mo, mo_light;
+  MemberOpts mo, mo_light, mo_sweep;
   unsigned steps_done = 0, distinct_vals_used = 0;
   bool any_nontrivial_checked = false;
   unsigned leq_yes = 0, leq_no = 0, copies = 0, mutations_after_copy = 0, observed_copy = 0;
@@ -124,6 +124,8 @@ template <class D> struct Hist {
 
   Hist(Tape &tape, CaseCtx &c, Universe &uni) : t(tape), ctx(c), u(uni) {
     vars = u.scalars();
+    mo_sweep.m5 = false; // (entailment probes are the expensive part; M1-M4 decide membership)
+    mo_sweep.use_brackets = false;
     mo_light.m3 = mo_light.m4 = mo_light.m5 = false;
     mo_light.use_brackets = false;
     ccap = VERIF_CONST_CAP;
@@ -1057,6 +1059,39 @@ template <class D> struct Hist {
   }
 
   // ---- the history ------------------------------------------------------------------------------
+  // all-pairs inclusion sweep (C04): a yes-answer between any two reachable values (over
+  // whatever variable sets their histories left them with) must be honoured by every witness of
+  // the left one; bottom on the left and top on the right must answer yes
+  void leq_sweep() {
+    if (!ctx.want("C04"))
+      return;
+    D top_v = A[0].make_top();
+    for (unsigned i = 0; i < NVALS; i++) {
+      bool ib = A[i].is_bottom();
+      VCHECK(ctx, "C04", A[i] <= top_v, "leq_top_on_the_right_says_no", "A" << i << " <= top is false: " << to_str(A[i]));
+      for (unsigned j = 0; j < NVALS; j++) {
+        if (i == j)
+          continue;
+        bool r = A[i] <= A[j];
+        if (ib)
+          VCHECK(ctx, "C04", r, "leq_bottom_on_the_left_says_no", "A" << i << " is bottom but A" << i << " <= A" << j << " (" << to_str(A[j]) << ") is false");
+        if (!r) {
+          leq_no++;
+          continue;
+        }
+        leq_yes++;
+        for (auto &w : S[i].W) {
+          std::string rs = hmember(w, A[j], mo_sweep);
+          VCHECK(ctx, "C04", rs.empty(), "leq_yes_but_witness_outside_" + rs.substr(0, 2),
+                 "A" << i << " <= A" << j << " answers yes but witness " << w.str() << " of the left (" << to_str(A[i]) << ") is not in the right ("
+                     << to_str(A[j]) << ") : " << rs);
+        }
+        if (!ib && !A[j].is_top())
+          R().cls("leq_yes_nontrivial");
+      }
+    }
+  }
+
   void run_history() {
     D top;
     for (unsigned i = 0; i < NVALS; i++) {
@@ -1077,8 +1112,12 @@ template <class D> struct Hist {
     for (unsigned q = 0; q < 8; q++)
       probes.push_back(constraint(dummy));
     unsigned nsteps = 3 + t.pick(38);
-    for (unsigned q = 0; q < nsteps && !(t.exhausted() && q >= 3); q++)
+    for (unsigned q = 0; q < nsteps && !(t.exhausted() && q >= 3); q++) {
       step();
+      if (q % 8 == 7)
+        leq_sweep();
+    }
+    leq_sweep();
     ctx.log << "steps=" << steps_done << " leq_yes=" << leq_yes << " leq_no=" << leq_no << " copies=" << copies << "\n";
     for (unsigned i = 0; i < NVALS; i++)
       ctx.log << "A" << i << " = " << to_str(A[i]) << "  |W|=" << S[i].W.size() << "\n";
